@@ -311,6 +311,11 @@ func decryptASN1(priv *PrivateKey, ciphertext []byte) ([]byte, error) {
 	if err != nil {
 		return nil, ErrDecryption
 	}
+	// B1: C1 must be a point of the curve (this also refuses the point at
+	// infinity (0,0), negative and out-of-range coordinates).
+	if !priv.Curve.IsOnCurve(x1, y1) {
+		return nil, ErrDecryption
+	}
 	return rawDecrypt(priv, x1, y1, c2, c3)
 }
 
@@ -352,6 +357,9 @@ func decryptLegacy(priv *PrivateKey, ciphertext []byte, opts *DecrypterOpts) ([]
 	x1, y1, c3Start, err := bytesToPoint(curve, ciphertext)
 	if err != nil {
 		return nil, ErrDecryption
+	}
+	if ciphertextLen < c3Start+sm3.Size {
+		return nil, errCiphertextTooShort
 	}
 
 	//B4, calculate t=KDF(x2||y2, klen)
